@@ -37,8 +37,13 @@ Errors == {"unknown_game", "unresolvable_host", "unreachable_server", "bad_port"
 \* size: "large" = a reply with more than a hundred players (documents of tens of kilobytes: output that is produced in
 \* pieces must still be one well-formed document); served for the text protocol where such replies are one datagram
 Sizes == {"small", "large"}
-Good == {g \in [kind : {"good"}, fam : Families, mode : Modes, fmt : Formats, str : StrClasses, size : Sizes] :
-           g.size = "large" => g.fam = "quake3"}
+\* host: the server is named by an IP literal, or by a host name together with a request option (two optional features that
+\* meet in the argument handling: the name becomes the request's host name, the option must survive that) - for the families
+\* whose options change the response
+NamedHostFams == {"valve", "valvegold", "theship", "unreal2"}
+Good == {g \in [kind : {"good"}, fam : Families, mode : Modes, fmt : Formats, str : StrClasses, size : Sizes, host : {"literal", "name"}] :
+           /\ (g.size = "large" => g.fam = "quake3")
+           /\ (g.host = "name" => (g.fam \in NamedHostFams /\ g.str = "plain" /\ g.size = "small"))}
 Bad == [kind : {"bad"}, err : Errors, fmt : {"json", "xml"}]
        \cup [kind : {"bad"}, err : {"unrepresentable_timeout"}, fmt : {"json"}, flag : TimeoutFlags, text : UnrepresentableTexts]
 
